@@ -3,6 +3,7 @@ import Driver.SStrOps
 import Driver.ModOps
 import Driver.RuleOps
 import SigmaVerif.Model.Ser
+import SigmaVerif.Model.LogSource
 import SigmaVerif.Lemmas.C06Touch
 namespace Driver
 open Lean SigmaVerif SigmaVerif.SStr SigmaVerif.Mods SigmaVerif.Ser
@@ -70,6 +71,19 @@ def dateJson (s : Str) : Json :=
   | some t => strToJson (printDate t)
   | none => Json.null
 
+/-- the log source of the document (`logsource` = [[attribute name, text]…], named attributes only): the model's dict
+form after loading, `null` when the model refuses it (no category, product, service) -/
+def logsourceJson (j : Json) : Except String Json := do
+  match j.getObjVal? "logsource" with
+  | .ok (.arr a) =>
+    let d ← a.toList.mapM fun e => do
+      let kv ← e.getArr?
+      pure ((← (kv.getD 0 Json.null).getStr?), (← strOfJson (kv.getD 1 Json.null)))
+    match LogSource.fromDict d with
+    | none => pure Json.null
+    | some l => pure (.arr ((LogSource.toDict l).map (fun kv => Json.arr #[Json.str kv.1, strToJson kv.2])).toArray)
+  | _ => pure (Json.mkObj [("absent", true)])
+
 /-- `ser.case`: `dets` = [[name, pdef]…], `cond`, `dates` = [text…].  Reply: the plain form the model
 writes after loading (`plain`) or the error class of the load (`loadErr`) / of the write (`serErr`);
 whether the model's own reload of what it wrote gives the same plain form again (`fixed`); whether
@@ -83,7 +97,7 @@ def serCase (j : Json) : Except String Json := do
   let dates := match j.getObjVal? "dates" with
     | .ok (.arr a) => a.toList.map (fun d => match strOfJson d with | .ok s => dateJson s | .error _ => Json.null)
     | _ => []
-  let base := [("good", Json.bool (GoodDoc doc)), ("dates", Json.arr dates.toArray)]
+  let base := [("good", Json.bool (GoodDoc doc)), ("dates", Json.arr dates.toArray), ("logsource", ← logsourceJson j)]
   match loadDoc env doc with
   | .error e => pure (Json.mkObj (("loadErr", serErrJson e) :: base))
   | .ok D =>
